@@ -104,11 +104,6 @@ class Iterate:
         cons = self.cons
         m = self.y + rho * cons
 
-        # Workaround for scipy bug: the product of two DIA matrices
-        # without stored diagonals raises a RuntimeError
-        if jac.format == "dia":
-            jac = jac.tocsr()
-
         if rho == 0.0:
             return self.lag_hess(m)
         else:
